@@ -35,7 +35,9 @@ META = {
         'under default, empty, 1..15-character and CR-containing KEY n texts (a key is never redefined while it waits and the '
         'pointers are never POKEd while a text is partly read; F11/F12 are not generated); stored-program histories with KEY traps (predefined KEY(1..14) and user-defined '
         'KEY 15..20 with every shift-state mask) that have a handler line and are ON: the key events carry scan codes and '
-        'Shift/Ctrl/Alt modifiers, exactly the trapped combination must be missing from the buffer (traps without ON KEY GOSUB '
+        'Shift/Ctrl/Alt modifiers, exactly the trapped combination must be missing from the buffer (some of these programs end with traps still enabled - by END, STOP, an '
+        'untrapped error, Ctrl+Break or running off the end -, keys including the trapped ones are then typed in direct mode '
+        'and must all reach the buffer, and the program is CONTinued or RUN again with trapping as before; traps without ON KEY GOSUB '
         'line, KEY(n) STOP and redefinition of an enabled trap are not generated); Ctrl+C/Break/Pause keys and POKEs that move a pointer outside the waiting range (or to an odd / non-slot value) are not generated. After the '
         'first divergence a history is abandoned (the model and the interpreter no longer share a state).'),
     'rule': ('case = one history (list of key-burst / read / INPUT / INPUT$ / clear / peek operations, run mode); distinct by '
@@ -46,7 +48,8 @@ META = {
     'exhaustive': {
         'quick': 'directed core only: clearing POKE at all 16 ring positions x all 16 fill levels (0..15), bursts of 14..18 keys at all 16 ring positions; histories are sampled',
         'thorough': 'directed core only: clearing POKE at all 16 ring positions x all 16 fill levels (0..15), bursts of 14..18 keys at all 16 ring positions; histories are sampled'},
-    'require_counters': {'any': ['key_events_swallowed_by_trap', 'same_key_other_shift_state_passed_trap', 'soft_keys_delivered_as_text', 'soft_keys_with_empty_text_delivered_as_key', 'keys_dropped_at_full', 'ring_wraps', 'clear_pokes_nonempty', 'partial_pokes_leaving_keys_waiting', 'peek_sweeps',
+    'require_counters': {'any': ['idle_key_events_matching_an_enabled_trap', 'programs_continued_after_idle_keys',
+                                 'programs_rerun_after_idle_keys', 'key_events_swallowed_by_trap', 'same_key_other_shift_state_passed_trap', 'soft_keys_delivered_as_text', 'soft_keys_with_empty_text_delivered_as_key', 'keys_dropped_at_full', 'ring_wraps', 'clear_pokes_nonempty', 'partial_pokes_leaving_keys_waiting', 'peek_sweeps',
                                  'reads_nonempty', 'reads_empty']},
     'timeout': {'quick': 900, 'thorough': 7200},
 }
@@ -80,7 +83,6 @@ def _ext_keys():
 MODSCAN = {'S': 0x2a, 'C': 0x1d, 'A': 0x38}
 LETTERS = {u'a': 0x1e, u's': 0x1f, u'd': 0x20, u'q': 0x10, u'z': 0x2c, u'b': 0x30}
 CURSOR = [[u'\0H', 0x48], [u'\0K', 0x4b], [u'\0M', 0x4d], [u'\0P', 0x50]]
-HANDLER_LINE = 60000
 
 
 def letter_event(ch, mods):
@@ -102,8 +104,9 @@ def mk_event(h, k):
     return h.key_event(k[0], k[1], mods)
 
 
-def gen_trap_history(rng, ext):
-    """Program-mode history with KEY traps defined and enabled while keys of every shift state arrive."""
+def gen_trap_history(rng, ext, idle=False):
+    """Program-mode history with KEY traps defined and enabled while keys of every shift state arrive.
+    idle=True: the program ends with traps still enabled, keys arrive in direct mode, then CONT / RUN."""
     m = rk.Kbd()
     tr = rk.KeyTraps()
     ops = []
@@ -139,35 +142,77 @@ def gen_trap_history(rng, ext):
             return k + [rng.choice(['', '', 'S', 'C'])]
         return gen_key(rng, ext) + ['']
 
-    for _ in range(rng.randint(8, 30)):
-        r = rng.random()
-        if r < 0.4 or ops[-1][0] in ('kd', 'kg', 'ko'):
-            keys = [ev() for _ in range(rng.randint(1, 8))]
-            for k in keys:
-                if not tr.swallows(k):
-                    m.key(key_bytes(k))
-            ops.append(['k', keys])
-        elif r < 0.7:
-            n = rng.randint(1, 5)
-            for _ in range(n):
-                m.read()
-            n += len(m.expansion)
-            while m.expansion:
-                m.read()
-            ops.append(['r', n])
-        elif r < 0.8:
-            n = rng.choice(nums + user)
-            if n in tr.on:
-                tr.on.discard(n)
-                ops.append(['ko', n, 'OFF'])
+    def phase(out, nops, active, toggles=True):
+        for _ in range(nops):
+            r = rng.random()
+            if r < 0.4 or not out or out[-1][0] in ('kd', 'kg', 'ko'):
+                keys = [ev() for _ in range(rng.randint(1, 8))]
+                if not active and tr.on and rng.random() < 0.7:
+                    # the key of an enabled trap, typed while no program runs
+                    n = rng.choice(sorted(tr.on))
+                    if n in tr.user:
+                        fl, sc = tr.user[n]
+                        ch = [c for c, v in LETTERS.items() if v == sc][0]
+                        keys.insert(rng.randint(0, len(keys)), letter_event(ch, ('S' if fl & 3 else '') + ('C' if fl & 4 else '') + ('A' if fl & 8 else '')))
+                    else:
+                        keys.insert(rng.randint(0, len(keys)), list((_fkeys() + CURSOR)[n - 1]) + [''])
+                for k in keys:
+                    if not (active and tr.swallows(k)):
+                        m.key(key_bytes(k))
+                out.append(['k', keys])
+            elif r < 0.7:
+                n = rng.randint(1, 5)
+                for _ in range(n):
+                    m.read()
+                n += len(m.expansion)
+                while m.expansion:
+                    m.read()
+                out.append(['r', n])
+            elif r < 0.8 and toggles:
+                n = rng.choice(nums + user)
+                if n in tr.on:
+                    tr.on.discard(n)
+                    out.append(['ko', n, 'OFF'])
+                else:
+                    tr.on.add(n)
+                    out.append(['ko', n, 'ON'])
             else:
-                tr.on.add(n)
-                ops.append(['ko', n, 'ON'])
-        else:
-            ops.append(['p', rng.choice([0, 1])])
-    ops.append(['p', 1])
-    ops.append(['r', len(m.stream()) + 2])
-    ops.append(['p', 0])
+                out.append(['p', rng.choice([0, 1])])
+
+    if not idle:
+        phase(ops, rng.randint(8, 30), True)
+        ops.append(['p', 1])
+        ops.append(['r', len(m.stream()) + 2])
+        ops.append(['p', 0])
+        return ops
+    # a program that leaves traps enabled ends; keys are typed while BASIC is idle; the program is continued / run again
+    phase(ops, rng.randint(3, 10), True)
+    if not tr.on:
+        n = rng.choice(nums + user)
+        tr.on.add(n)
+        ops.append(['ko', n, 'ON'])
+    kind = rng.choice(['END', 'STOP', 'error', 'break', 'off-end'])
+    idle_ops = []
+    for _ in range(rng.randint(2, 5)):
+        # BASIC is idle: key events are taken in by INKEY$ evaluated at the prompt, so a read follows every burst
+        phase(idle_ops, 1, False, toggles=False)
+        if idle_ops[-1][0] != 'k':
+            continue
+        n = rng.randint(1, 4)
+        for _ in range(n):
+            m.read()
+        n += len(m.expansion)
+        while m.expansion:
+            m.read()
+        idle_ops.append(['r', n])
+        if rng.random() < 0.6:
+            idle_ops.append(['p', rng.choice([0, 1])])
+    then = rng.choice(['cont', 'cont', 'rerun']) if kind in ('END', 'STOP', 'break') else 'rerun'
+    ops.append(['end', kind, idle_ops, then])
+    if then == 'cont':
+        phase(ops, rng.randint(3, 9), True)
+        ops.append(['p', 1])
+        ops.append(['r', 3])
     return ops
 
 
@@ -467,161 +512,273 @@ class Runner(object):
 
     # -- program mode ---------------------------------------------------------------------------
     def compile(self, ops):
-        """ops -> (lines, schedule{boundary: keys}, plan[(what, ...)]). One statement per line."""
-        stmts = []      # (text, action)
-        sched = {}
-        nr = 0
-        npk = 0
+        """
+        ops -> dict(lines, segs, marker). One statement per line; statement 0 (line 1) jumps over the trap handlers,
+        statement i >= 1 is line 1000+10*i. A segment = what one RUN / CONT executes: its schedule {boundary: keys}
+        (boundary 1 is the RUN / CONT statement itself), its actions [(statement index, action)] and the predicted
+        trap handler runs. ['end', kind, idle_ops, then] ends segment 0: the program stops there with its traps
+        still enabled (END / STOP / untrapped error / Ctrl+Break / running off the end).
+        """
+        stmts = []
+        nr = [0]
+        npk = [0]
         pending = []
-        actions = []
         traps = rk.KeyTraps()
-        shift = [0]             # boundaries taken by trap handlers so far (2 statements per invocation)
-        self.hits = {}
+        segs = [{'sched': {}, 'actions': [], 'hits': {}, 'start': 0}]
+        shift = [0]             # boundaries taken by trap handlers so far in this segment (2 statements per run)
+        marker = {}
 
         def add(text, action=None):
+            sg = segs[-1]
             if pending:
-                # keys arrive before this statement's boundary; boundary 1 is RUN itself, then DEF SEG, DIM, DIM
-                sched.setdefault(len(stmts) + 2 + shift[0], []).extend(pending)
-                actions.append((len(stmts), ('k', list(pending))))
+                sg['sched'].setdefault(len(stmts) - sg['start'] + 2 + shift[0], []).extend(pending)
+                sg['actions'].append((len(stmts), ('k', list(pending))))
                 for n in traps.firing(pending):
                     # the trapped key is seen at this boundary: its handler (2 statements) runs before the statement
                     shift[0] += 2
-                    self.hits[n] = self.hits.get(n, 0) + 1
+                    sg['hits'][n] = sg['hits'].get(n, 0) + 1
                 del pending[:]
             if action:
-                actions.append((len(stmts), action))
+                sg['actions'].append((len(stmts), action))
                 _trap_action(traps, action)
             stmts.append(text)
 
-        body = []
-        for op in ops:
+        def body_of(op):
             c = op[0]
-            if c == 'k':
-                body.append(('k', op[1]))
-            elif c == 'r':
+            if c == 'r':
                 for _ in range(op[1]):
-                    nr += 1
-                    body.append(('s', b'R$(%d)=INKEY$' % nr, ('r', nr)))
+                    nr[0] += 1
+                    yield (b'R$(%d)=INKEY$' % nr[0], ('r', nr[0]))
             elif c == 'i':
-                nr += 1
-                body.append(('s', b'INPUT R$(%d)' % nr, ('i', nr)))
+                nr[0] += 1
+                yield (b'INPUT R$(%d)' % nr[0], ('i', nr[0]))
             elif c == 'n':
-                nr += 1
-                body.append(('s', b'R$(%d)=INPUT$(%d)' % (nr, op[1]), ('n', nr, op[1])))
+                nr[0] += 1
+                yield (b'R$(%d)=INPUT$(%d)' % (nr[0], op[1]), ('n', nr[0], op[1]))
             elif c == 'c':
-                body.append(('s', b'POKE 1050,PEEK(1052)', ('c',)))
+                yield (b'POKE 1050,PEEK(1052)', ('c',))
             elif c in ('h', 't'):
-                body.append(('s', poke_stmt(c, op[1]), (c, op[1])))
+                yield (poke_stmt(c, op[1]), (c, op[1]))
             elif c == 'm':
-                body.append(('s', macro_stmt(op[1], op[2]), ('m', op[1], op[2])))
+                yield (macro_stmt(op[1], op[2]), ('m', op[1], op[2]))
             elif c == 'kd':
-                body.append(('s', b'KEY %d,CHR$(%d)+CHR$(%d)' % (op[1], op[2], op[3]), ('kd', op[1], op[2], op[3])))
+                yield (b'KEY %d,CHR$(%d)+CHR$(%d)' % (op[1], op[2], op[3]), ('kd', op[1], op[2], op[3]))
             elif c == 'kg':
-                body.append(('s', b'ON KEY(%d) GOSUB %d' % (op[1], HANDLER_LINE + 10 * op[1]), ('kg', op[1])))
+                yield (b'ON KEY(%d) GOSUB %d' % (op[1], 10 + 20 * op[1]), ('kg', op[1]))
             elif c == 'ko':
-                body.append(('s', b'KEY(%d) %s' % (op[1], op[2].encode()), ('ko', op[1], op[2])))
+                yield (b'KEY(%d) %s' % (op[1], op[2].encode()), ('ko', op[1], op[2]))
             elif c == 'p':
                 addrs = list(range(1050, 1086)) if op[1] else [1050, 1051, 1052, 1053]
-                first = npk
+                first = npk[0]
                 for i, a in enumerate(addrs):
-                    body.append(('s', b'P%%(%d)=PEEK(%d)' % (npk, a), ('p', first, addrs, op[1]) if i == 0 else None))
-                    npk += 1
+                    yield (b'P%%(%d)=PEEK(%d)' % (npk[0], a), ('p', first, addrs, op[1]) if i == 0 else None)
+                    npk[0] += 1
+
+        body = []
+        for op in ops:
+            if op[0] == 'k':
+                body.append(('k', op[1]))
+            elif op[0] == 'end':
+                body.append(('end', op[1], op[2], op[3]))
+            else:
+                body.extend(('s', t, a) for t, a in body_of(op))
+        add(b'GOTO 1010')
         add(b'DEF SEG=0')
-        add(b'DIM R$(%d)' % (nr + 1))
-        add(b'DIM P%%(%d)' % (npk + 1))
+        add(b'DIM R$(%d)' % (nr[0] + 1))
+        add(b'DIM P%%(%d)' % (npk[0] + 1))
         add(b'DIM H%(20)')
         for item in body:
             if item[0] == 'k':
                 pending.extend(item[1])
-            else:
+            elif item[0] == 's':
                 add(item[1], item[2])
-        add(b'A=0')
-        add(b'END')
-        lines = [b'%d %s' % (10 * (i + 1), s) for i, s in enumerate(stmts)]
+            else:
+                _, kind, idle, then = item
+                if pending and kind in ('break', 'off-end'):
+                    add(b'A=0')
+                marker.update(kind=kind, idle=idle, then=then)
+                act = ('end', kind)
+                if kind == 'off-end':
+                    segs[-1]['actions'].append((len(stmts), act))
+                    marker['idx'] = len(stmts)
+                elif kind == 'break':
+                    sg = segs[-1]
+                    sg['sched'].setdefault(len(stmts) - sg['start'] + 2 + shift[0], []).append('BREAK')
+                    marker['idx'] = len(stmts)
+                    sg['actions'].append((len(stmts), act))
+                    if then == 'cont':
+                        segs.append({'sched': {}, 'actions': [], 'hits': {}, 'start': len(stmts)})
+                        shift[0] = 0
+                    add(b'A=1')
+                else:
+                    marker['idx'] = len(stmts)
+                    add({'END': b'END', 'STOP': b'STOP', 'error': b'ERROR 77'}[kind], act)
+                    if then == 'cont':
+                        segs.append({'sched': {}, 'actions': [], 'hits': {}, 'start': len(stmts)})
+                        shift[0] = 0
+        if marker.get('kind') != 'off-end':
+            add(b'A=0')
+            add(b'END')
+        lines = [b'%d %s' % (1 if i == 0 else 1000 + 10 * i, t) for i, t in enumerate(stmts)]
         for n in sorted(traps.handler):
-            lines.append(b'%d H%%(%d)=H%%(%d)+1' % (HANDLER_LINE + 10 * n, n, n))
-            lines.append(b'%d RETURN' % (HANDLER_LINE + 10 * n + 5))
-        return lines, sched, actions
+            lines.append(b'%d H%%(%d)=H%%(%d)+1' % (10 + 20 * n, n, n))
+            lines.append(b'%d RETURN' % (15 + 20 * n))
+        self.hits = {}
+        for sg in segs:
+            for n, c in sg['hits'].items():
+                self.hits[n] = self.hits.get(n, 0) + c
+        return {'lines': lines, 'segs': segs, 'marker': marker}
 
     def run_program(self, ops, m):
-        m.traps = rk.KeyTraps()
         h = self.h
-        lines, sched, actions = self.compile(ops)
+        comp = self.compile(ops)
+        lines, segs, marker = comp['lines'], comp['segs'], comp['marker']
+        m.traps = rk.KeyTraps()
+        brk = h.key_event(u'', h.scancode.BREAK, [h.scancode.CTRL])
         with h.Box(budget=len(lines) + 50 + 2 * sum(self.hits.values())) as box:
             _, audio = h.record_queues(box.s, video=False)
             box.enter(lines)
-            box.stepper.schedule = dict(
-                (b, [mk_event(h, k) for k in keys]) for b, keys in sched.items())
-            out = box.run()
-            self._count_beeps(audio)
-            code, line = h.err_of(out)
-            R = box.get('R$()')
-            P = box.get('P%()')
-            stopped = None
-            if code or box.stepper.break_hit:
-                # (a Break inside INPUT is announced without the error marker, so the stepper's flag is consulted too)
-                mt = re.findall(br' in (\d+)', out)
-                stopped = (int(mt[-1]) // 10 - 1) if mt else 0
-            for idx, act in actions:
-                c = act[0]
-                if c == 'k':
-                    passed = [k for k in act[1] if not m.traps.swallows(k)]
-                    if len(passed) < len(act[1]):
-                        self.res.count('key_events_swallowed_by_trap', len(act[1]) - len(passed))
-                        self.res.count('same_key_other_shift_state_passed_trap',
-                                       sum(1 for k in passed if len(k) > 2 and any(
-                                           k[1] == sc for _, sc in m.traps.user.values())))
-                    self._deliver(m, passed)
-                    continue
-                if c in ('kd', 'kg', 'ko'):
-                    _trap_action(m.traps, act)
-                    m.with_traps = True
-                    continue
-                if stopped is not None and idx >= stopped:
-                    if c in ('i', 'n'):
-                        exp = m.read_line() if c == 'i' else m.read_n(act[2])
-                        raise Divergence('input-blocked', '%s did not complete (%r) although the keystrokes %r are waiting'
-                                         % ('INPUT' if c == 'i' else 'INPUT$(%d)' % act[2], out[-40:], exp))
-                    raise Divergence('program-stopped', 'history program ended with %r' % out[-60:])
-                if c == 'r':
-                    self._cmp_read(m, R[act[1]], 'INKEY$')
-                elif c == 'i':
-                    exp = m.read_line()
-                    got = R[act[1]]
-                    if got != exp:
-                        raise Divergence('input-line', 'INPUT gave %r, keystrokes typed before Enter are %r' % (got, exp))
-                    self.res.count('input_reads')
-                elif c == 'n':
-                    exp = m.read_n(act[2])
-                    got = R[act[1]]
-                    if got != exp:
-                        raise Divergence('wrong-key-order', 'INPUT$(%d) gave %r, the oldest waiting keystrokes are %r' % (act[2], got, exp))
-                    self.res.count('inputstr_reads')
-                elif c == 'c':
-                    n = m.clear()
-                    self.res.count('clear_pokes')
-                    if n:
-                        self.res.count('clear_pokes_nonempty')
-                    m.cleared = True
-                    m.last_poke = 'clear'
-                elif c in ('h', 't'):
-                    self._partial(m, c, act[1])
-                elif c == 'm':
-                    m.set_macro(act[1], act[2].encode('ascii'))
-                    self.res.count('soft_key_definitions')
-                elif c == 'p':
-                    mem = dict((a, P[act[1] + i]) for i, a in enumerate(act[2]))
-                    self._cmp_view(m, mem, act[3])
-            if stopped is not None:
-                raise Divergence('program-stopped', 'history program ended with %r' % out[-60:])
-            self.res.count('keys_delivered_at_statement_boundaries', sum(len(v) for v in sched.values()))
-            if self.hits:
+            q = box.impl.queues.inputs
+
+            def run_seg(si, cmd):
+                sg = segs[si]
+                box.stepper.schedule = dict(
+                    (b, [brk if k == 'BREAK' else mk_event(h, k) for k in keys]) for b, keys in sg['sched'].items())
+                out = box.ex(cmd)
+                box.stepper.schedule = {}
+                self.res.count('keys_delivered_at_statement_boundaries',
+                               sum(1 for v in sg['sched'].values() for k in v if k != 'BREAK'))
+                self._replay(box, m, sg, out, marker if si == 0 else None)
+
+            try:
+                run_seg(0, b'RUN')
+                if marker:
+                    # the program has ended with traps still enabled: BASIC is idle, every key event reaches the buffer
+                    self.res.count('programs_ended_with_traps_enabled_by_' + marker['kind'].replace('-', '_'))
+                    m.idle = True
+                    box.ex(b'DEF SEG=0')
+                    for op in marker['idle']:
+                        if op[0] == 'k':
+                            nm = sum(1 for k in op[1] if m.traps.swallows(k))
+                            if nm:
+                                self.res.count('idle_key_events_matching_an_enabled_trap', nm)
+                        self._idle_op(box, q, op, m)
+                    m.idle = False
+                    if marker['then'] == 'cont':
+                        run_seg(1, b'CONT')
+                        self.res.count('programs_continued_after_idle_keys')
+                    elif marker['then'] == 'rerun':
+                        m.traps = rk.KeyTraps()
+                        run_seg(0, b'RUN')
+                        self.res.count('programs_rerun_after_idle_keys')
+            finally:
+                self._count_beeps(audio)
+            if self.hits and not marker:
                 H = box.get('H%()')
                 for n, cnt in sorted(self.hits.items()):
                     if H[n] != cnt:
                         raise Divergence('trap-handler-runs', 'handler of KEY(%d) ran %d times, its key arrived at %d statement '
                                          'boundaries while the trap was ON' % (n, H[n], cnt))
                 self.res.count('key_trap_handler_runs', sum(self.hits.values()))
+
+    def _idle_op(self, box, q, op, m):
+        """
+        An operation while BASIC is idle (no statement is executing): key events are put on the input queue and are taken
+        in when INKEY$ is evaluated (Session.evaluate); PEEK likewise through evaluate. Every burst is followed by a read.
+        """
+        h = self.h
+        c = op[0]
+        if c == 'k':
+            for k in op[1]:
+                q.put(mk_event(h, k))
+            self._deliver(m, op[1])
+        elif c == 'r':
+            for _ in range(op[1]):
+                v = box.ev(b'INKEY$')
+                if v is None:
+                    raise Divergence('statement-error', 'INKEY$ raised an error')
+                self._cmp_read(m, bytes(v), 'INKEY$')
+        elif c == 'p':
+            addrs = list(range(1050, 1086)) if op[1] else [1050, 1051, 1052, 1053]
+            mem = {}
+            for a in addrs:
+                v = box.ev(b'PEEK(%d)' % a)
+                if v is None:
+                    raise Divergence('statement-error', 'PEEK(%d) raised an error' % a)
+                mem[a] = int(v)
+            self._cmp_view(m, mem, op[1])
+        else:
+            raise ValueError(op)
+
+    def _replay(self, box, m, sg, out, marker):
+        """Compare what one RUN / CONT left in R$() and P%() with the model, action by action."""
+        h = self.h
+        code, line = h.err_of(out)
+        R = box.get('R$()')
+        P = box.get('P%()')
+        stopped = None
+        if code or box.stepper.break_hit:
+            # (a Break inside INPUT is announced without the error marker, so the stepper's flag is consulted too)
+            mt = re.findall(br' in (\d+)', out)
+            ln = int(mt[-1]) if mt else 1
+            stopped = 0 if ln < 1000 else (ln - 1000) // 10
+            if (marker and marker['kind'] in ('STOP', 'error', 'break') and not box.stepper.break_hit
+                    and stopped >= marker['idx'] - 1):
+                stopped = None      # the planned end of this run
+        for idx, act in sg['actions']:
+            c = act[0]
+            if c == 'k':
+                passed = [k for k in act[1] if not m.traps.swallows(k)]
+                if len(passed) < len(act[1]):
+                    self.res.count('key_events_swallowed_by_trap', len(act[1]) - len(passed))
+                    self.res.count('same_key_other_shift_state_passed_trap',
+                                   sum(1 for k in passed if len(k) > 2 and any(
+                                       k[1] == sc for _, sc in m.traps.user.values())))
+                self._deliver(m, passed)
+                continue
+            if c in ('kd', 'kg', 'ko'):
+                _trap_action(m.traps, act)
+                m.with_traps = True
+                continue
+            if c == 'end':
+                break
+            if stopped is not None and idx >= stopped:
+                if c in ('i', 'n'):
+                    exp = m.read_line() if c == 'i' else m.read_n(act[2])
+                    raise Divergence('input-blocked', '%s did not complete (%r) although the keystrokes %r are waiting'
+                                     % ('INPUT' if c == 'i' else 'INPUT$(%d)' % act[2], out[-40:], exp))
+                raise Divergence('program-stopped', 'history program ended with %r' % out[-60:])
+            if c == 'r':
+                self._cmp_read(m, R[act[1]], 'INKEY$')
+            elif c == 'i':
+                exp = m.read_line()
+                got = R[act[1]]
+                if got != exp:
+                    raise Divergence('input-line', 'INPUT gave %r, keystrokes typed before Enter are %r' % (got, exp))
+                self.res.count('input_reads')
+            elif c == 'n':
+                exp = m.read_n(act[2])
+                got = R[act[1]]
+                if got != exp:
+                    raise Divergence('wrong-key-order', 'INPUT$(%d) gave %r, the oldest waiting keystrokes are %r' % (act[2], got, exp))
+                self.res.count('inputstr_reads')
+            elif c == 'c':
+                n = m.clear()
+                self.res.count('clear_pokes')
+                if n:
+                    self.res.count('clear_pokes_nonempty')
+                m.cleared = True
+                m.last_poke = 'clear'
+            elif c in ('h', 't'):
+                self._partial(m, c, act[1])
+            elif c == 'm':
+                m.set_macro(act[1], act[2].encode('ascii'))
+                self.res.count('soft_key_definitions')
+            elif c == 'p':
+                mem = dict((a, P[act[1] + i]) for i, a in enumerate(act[2]))
+                self._cmp_view(m, mem, act[3])
+        if stopped is not None:
+            raise Divergence('program-stopped', 'history program ended with %r' % out[-60:])
 
     # -- one case ----------------------------------------------------------------------------------
     def case(self, ops, mode, tag):
@@ -631,7 +788,8 @@ class Runner(object):
         m.cleared = False
         m.last_poke = None
         m.with_traps = False
-        if any(op[0] in ('kd', 'kg', 'ko') for op in ops):
+        m.idle = False
+        if any(op[0] in ('kd', 'kg', 'ko', 'end') for op in ops):
             mode = 'program'        # key traps only act while a program runs
         case = {'mode': mode, 'ops': ops, 'origin': tag}
         try:
@@ -646,6 +804,9 @@ class Runner(object):
             elif m.last_poke == 'clear' and d.kind != 'statement-error':
                 key = CLEAR_KEY
                 text = 'after POKE 1050,PEEK(1052): ' + d.text
+            elif getattr(m, 'idle', False) and d.kind != 'statement-error':
+                key = 'kbd:idle-after-program-left-traps-on:' + d.kind
+                text = 'keys typed in direct mode after a program ended with KEY traps enabled: ' + d.text
             elif m.with_traps and d.kind != 'statement-error':
                 key = 'kbd:with-key-traps:' + d.kind
                 text = 'KEY traps defined: ' + d.text
@@ -742,6 +903,21 @@ def directed_cases():
                              ['k', [letter_event(u'a', ''), letter_event(u'a', 'C'), _fkeys()[1] + [''], letter_event(u'b', 'C'), letter_event(u'a', 'S')]],
                              ['p', 1], ['r', 4], ['ko', 16, 'ON'], ['k', [letter_event(u'a', ''), letter_event(u'a', 'A'), letter_event(u'a', 'C')]],
                              ['p', 1], ['r', 3], ['p', 0]]))
+    # a program ends with traps still enabled; the trapped key typed while BASIC is idle must reach the buffer like any
+    # other key; after CONT / RUN trapping works again
+    ca = letter_event(u'a', 'C')
+    f2 = _fkeys()[1] + ['']
+    for kind in ('END', 'STOP', 'error', 'break', 'off-end'):
+        for then in (['cont', 'rerun'] if kind in ('END', 'STOP', 'break') else ['rerun']):
+            for setup, tk in (([['kd', 15, 4, LETTERS[u'a']], ['kg', 15], ['ko', 15, 'ON']], ca),
+                              ([['m', 2, u''], ['kg', 2], ['ko', 2, 'ON']], f2)):
+                b1 = [[u'x', None, ''], tk, letter_event(u'a', ''), [u'y', None, '']]
+                idle = [['k', [[u'p', None, ''], tk, letter_event(u'a', 'S'), tk, [u'q', None, '']]], ['r', 3], ['p', 1],
+                        ['k', [tk]], ['r', 1], ['p', 1], ['r', 4], ['p', 0]]
+                ops = setup + [['k', b1], ['p', 1], ['r', 2], ['k', [tk, [u'w', None, '']]], ['end', kind, idle, then]]
+                if then == 'cont':
+                    ops += [['k', [tk, [u'v', None, ''], tk]], ['p', 1], ['r', 5], ['p', 0]]
+                out.append(('idle %s %s %s' % (kind, then, 'user' if tk is ca else 'F2'), ops))
     # bursts around the capacity at every ring position: what is held, what is dropped, in which order
     for pos in range(16):
         for n in (14, 15, 16, 17, 18):
@@ -816,7 +992,7 @@ def run_shard(spec, res):
             with_clear = (i % 2 == 1)
             if i % 8 == 6:
                 # key traps defined and enabled while keys of every shift state arrive (stored program only)
-                ops = gen_trap_history(rng, runner.ext)
+                ops = gen_trap_history(rng, runner.ext, idle=(i % 16 == 14))
                 mode = 'program'
             else:
                 ops = gen_history(rng, runner.ext, with_clear)
